@@ -524,6 +524,16 @@ func main() {
 			for _, s := range srcs {
 				trs = append(trs, triple{d, dg, s})
 			}
+			// entropy CORRELATED with the public digest (a source that echoes the digest, or the digest masked with a
+			// constant): the mixing of entropy and digest must stay injective, so distinct digests still give distinct r
+			e, _ := ref.DigestToE(dg)
+			eb := ref.B32(ref.ModN(e))
+			trs = append(trs, triple{d, dg, "hex:" + mc.Hex(eb)})
+			mk := append([]byte{}, eb...)
+			for i := range mk {
+				mk[i] ^= 0x5a
+			}
+			trs = append(trs, triple{d, dg, "hex:" + mc.Hex(mk)})
 		}
 	}
 	R.Bound("hedged_triples", len(trs))
@@ -546,7 +556,9 @@ func main() {
 	// pairwise sensitivity: r collides iff the triples are e-equivalent (same d, same entropy, same e)
 	eKey := func(t triple) string {
 		e, _ := ref.DigestToE(t.digest)
-		return t.d.String() + "|" + t.ent + "|" + ref.ModN(e).String()
+		eb := make([]byte, 32) // the entropy BYTES, not the name of the script that produces them
+		mc.Script{Src: t.ent, Mode: "full", FailAfter: -1}.New().Read(eb)
+		return t.d.String() + "|" + mc.Hex(eb) + "|" + ref.ModN(e).String()
 	}
 	var mu sync.Mutex
 	var same, diff int64
